@@ -42,8 +42,12 @@ def observe(cp, tracked):
         p = fm.get_named_file(n)
         st["path"] = p
         if p is not None:
-            with open(p, "rb") as f:
-                st["bytes"] = f.read()
+            try:
+                with open(p, "rb") as f:
+                    st["bytes"] = f.read()
+            except OSError as e:
+                # get_named_file names something that is not there: judged by the oracle (bytes differ from what was registered)
+                st["bytes"] = f"unreadable: {e.__class__.__name__}".encode()
             try:
                 st["fingerprint"] = fm.get_fingerprint_for_name(n)
             except Exception as e:  # noqa: BLE001
